@@ -63,7 +63,15 @@ def _work(task):
         for k, ob in enumerate(obs):
             if k % nshards != shard:
                 continue
-            r = solve.check_vc(ob.pc, ob.goal, tier)
+            hints = None
+            for pat, h in (getattr(ex.c, "solver_hints", None) or {}).items():
+                if pat in ob.name:
+                    hints = h
+            local = None
+            if ob.info.get("local_from") is not None:
+                # Hoare-style attempt first: precondition + what was assumed/derived since the loop head
+                local = list(ex.pre_pc) + list(ob.pc[ob.info["local_from"]:])
+            r = solve.check_vc(ob.pc, ob.goal, tier, hints=hints, local=local)
             rec = {"name": ob.name, "kind": ob.kind, "status": r["status"], "backend": r.get("backend"),
                    "time": round(r.get("time", 0.0), 3), "info": ob.info, "k": k}
             if r["status"] == "sat":
@@ -75,6 +83,8 @@ def _work(task):
                         rec["input"] = concretise(ex, m)
                     except Exception:
                         rec["input"] = None
+                elif r.get("model_text"):
+                    rec["input"] = concretise_text(ex, r["model_text"])
             out["results"].append(rec)
     except Exception:
         out["error"] = traceback.format_exc()
@@ -99,6 +109,32 @@ def concretise(ex, model):
         else:
             vals[n] = {"unrendered": type(v).__name__}
     return vals
+
+
+def concretise_text(ex, text):
+    """argument values from the (get-model) output of a CLI solver (ints, strings, bools)"""
+    import re
+    from .sym import VInt, VStr, VBool
+    vals = {}
+    for n, v in ex.entry_args.items():
+        if not isinstance(v, (VInt, VStr, VBool)):
+            continue
+        name = re.escape(str(v.t))
+        m = re.search(r"\(define-fun \|?%s\|? \(\) \w+\s+(\"(?:[^\"]|\"\")*\"|\(- \d+\)|-?\d+|true|false)\)" % name, text)
+        if not m:
+            continue
+        tok = m.group(1)
+        if tok.startswith('"'):
+            sv = tok[1:-1].replace('""', '"')
+            sv = re.sub(r"\\u\{([0-9a-fA-F]+)\}", lambda q: chr(int(q.group(1), 16)), sv)
+            vals[n] = sv
+        elif tok in ("true", "false"):
+            vals[n] = tok == "true"
+        elif tok.startswith("(-"):
+            vals[n] = -int(tok[2:-1].strip())
+        else:
+            vals[n] = int(tok)
+    return vals or None
 
 
 def run_property(prop, repo="/repo", tier="quick", jobs=16):
@@ -226,8 +262,9 @@ def _work_lemma(task):
             out["unsupported"] = str(u)
             return out
         out["n_total"] = len(vcs)
+        hints = (getattr(mod, "LEMMA_HINTS", None) or {}).get(name)
         for k, (sub, pc, goal) in enumerate(vcs):
-            r = solve.check_vc(pc, goal, tier)
+            r = solve.check_vc(pc, goal, tier, hints=hints)
             rec = {"name": "%s.lemma.%s%s" % (prop, name, ("." + sub) if sub else ""), "kind": "lemma",
                    "status": r["status"], "backend": r.get("backend"), "time": round(r.get("time", 0.0), 3),
                    "info": {}, "k": k}
